@@ -1811,6 +1811,11 @@ fn jnode_strategy() -> BoxedStrategy<JNode> {
 impl Property for C10 {
     type Case = Case;
 
+    fn fuzz(&self) -> Option<FuzzSpec> {
+        // entropy-driven target: libFuzzer's bytes replace the generator's random numbers
+        Some(FuzzSpec { target: "gen", jobs: 8, runs: 150_000, max_len: 4096, seeds: 64 })
+    }
+
     fn id(&self) -> &'static str {
         "C10"
     }
